@@ -4,8 +4,8 @@ CONSTANTS
   Threads = {1, 2, 3}
   MaxCalls = 3
   Chunks = {0}
-  Ns = {2, 3}
-  Sizes = {0, 1, 5}
+  Ns = {3}
+  Sizes = {0, 5}
   NChange = FALSE
 INVARIANTS Offered_Inv LB_PicksFewest LB_Account LB_Spread Judge_Accepts
 CHECK_DEADLOCK FALSE
